@@ -223,6 +223,35 @@ func runC13(c *ShardCtx) {
 	}
 	c.W.Srv.Timeout = 10e9
 	idx := 0
+	// (f) case sweep: EVERY rune with a case variant as a case-insensitive literal (alone, inside a
+	// longer literal) and as member of a case-insensitive class, 16 runes per grammar, built with no
+	// flag and with all flags (what the builder computes for such terminals - lower-cased values,
+	// folded ranges, lookup tables - must not crash on any of them)
+	{
+		cased := casedRunes()
+		for at := 0; at < len(cased); at += 16 {
+			idx++
+			if !c.Mine(idx) {
+				continue
+			}
+			if c.Expired("family f") {
+				return
+			}
+			end := at + 16
+			if end > len(cased) {
+				end = len(cased)
+			}
+			var rules []*peg.Rule
+			for k, r := range cased[at:end] {
+				rules = append(rules, &peg.Rule{Name: "L" + itoa(k), Expr: peg.Choice(peg.LitI(string(r)), peg.LitI("x"+string(r)+string(r)+"y"), peg.Cls(false, true, string(r)), peg.Cls(true, true, string(r), "a-"+string(r)))})
+			}
+			text := []byte(peg.Print(&peg.Grammar{Rules: rules}, &peg.PrintOpts{Package: "p"}))
+			c.Res.Grammars++
+			x.build(text, 0)
+			x.build(text, 31)
+			x.build(text, 4)
+		}
+	}
 	// (a) valid texts x flag sets
 	leaves := []*peg.Expr{peg.Lit("a"), peg.LitI("b"), peg.Cls(false, true, "a-c", `\pL`), peg.Cls(true, false, "a"), peg.Cls(false, false), peg.Cls(false, false, "a-é"), peg.Cls(true, true, "!-ÿ", "Ā-Ȁ"), peg.Cls(false, true, "K", `\p{Lu}`), peg.Any(), peg.Ref("B"), peg.Ref("A"), peg.Ref("Undefined"),
 		peg.AndCode(1), peg.NotCode(2), peg.StateCode(3), peg.Throw("l"), peg.Lit("")}
